@@ -7,7 +7,6 @@ import (
 	"strings"
 	"testing"
 
-	"verif/internal/ev"
 	"verif/internal/run"
 )
 
@@ -17,11 +16,13 @@ func TestSurvey(t *testing.T) {
 	if os.Getenv("C08_SURVEY") == "" {
 		t.Skip("set C08_SURVEY=1")
 	}
-	rec := ev.New(prop)
 	groups := map[string]int{}
 	sample := map[string]string{}
 	total, failed := 0, 0
-	enumA(rec, func(c CaseA) bool {
+	enumA(func(c CaseA, excluded string) bool {
+		if excluded != "" {
+			return true
+		}
 		total++
 		if err := run.Safe(func() error { return checkA(c) }); err != nil {
 			failed++
